@@ -124,7 +124,8 @@ Definition cc_take_array (s : cpool) (ns bytes : Z) : option (cpool * option Z) 
       else cc_list_step s ns (UAllocArr bytes)
   end.
 
-(* allocate_node(node_size) *)
+(* allocate_node(node_size): an empty pool is first given memory of the current block -- a default reservation or, failing that,
+   the block's remainder (try_reserve_memory) -- and only if that leaves it empty a new block is taken (reserve_memory) *)
 Definition cc_alloc_node (s : cpool) (size : Z) (answer : option Z) : option (cpool * obs * list ev) :=
   let ns := bkt size in
   if (size <=? 0) || (cc_max s <? size) || (bkt size <? size) then None else
@@ -133,10 +134,20 @@ Definition cc_alloc_node (s : cpool) (size : Z) (answer : option Z) : option (cp
   | Some n =>
       if 0 <? n
       then match cc_take_node s ns with Some (s', x) => Some (s', ObsOk x, []) | None => None end
-      else match cc_grow s ns (cc_defcap s) answer with
+      else match cc_try_reserve s ns (cc_defcap s) with
            | None => None
-           | Some (s1, false, evs) => Some (s1, ObsThrow, evs)
-           | Some (s1, true, evs) => match cc_take_node s1 ns with Some (s', x) => Some (s', ObsOk x, evs) | None => None end
+           | Some (s0, ev0) =>
+               match cc_nfree s0 ns with
+               | None => None
+               | Some n0 =>
+                   if 0 <? n0
+                   then match cc_take_node s0 ns with Some (s', x) => Some (s', ObsOk x, ev0) | None => None end
+                   else match cc_grow s0 ns (cc_defcap s0) answer with
+                        | None => None
+                        | Some (s1, false, evs) => Some (s1, ObsThrow, ev0 ++ evs)
+                        | Some (s1, true, evs) => match cc_take_node s1 ns with Some (s', x) => Some (s', ObsOk x, ev0 ++ evs) | None => None end
+                        end
+               end
            end
   end.
 
@@ -226,6 +237,10 @@ Definition cc_dealloc (s : cpool) (size bytes p : Z) : option (cpool * obs * lis
   | Some (s', _) => Some (s', ObsTrue, [])
   | None => None
   end.
+
+(* reserve(node_size, capacity): reserve_memory and insert into the pool of that size; true / false: done / the block source threw *)
+Definition cc_reserve_op (s : cpool) (size capacity : Z) (answer : option Z) : option (cpool * bool * list ev) :=
+  if (size <=? 0) || (cc_max s <? size) || (bkt size <? size) then None else cc_grow s (bkt size) capacity answer.
 
 (* ---------- histories ---------- *)
 Inductive coll_op :=
